@@ -7,7 +7,8 @@ strict validation, and reader/writer agreement.
                    operation — Assert terminators, unwrap/expect/panic!/unreachable!, slice/array indexing and the
                    length-checked slice copies — is enumerated. Asserts whose condition folds to a constant are
                    discharged automatically; the rest must equal the reviewed table tables/C02_panic_sites.json
-                   (site, operation, controlling guard, reason it cannot fire). A decoder acquiring a new
+                   (site, operation, canonical controlling condition — fvlib.core.site_guard / guards_match as in
+                   C19 TAB-rule-guards —, reason it cannot fire). A decoder acquiring a new
                    unwrap/index is itself the defect class, so an unlisted site is reported (fail closed).
   DOM-reader       `Input for &[u8]`: peek/read/skip return BufferIsTooShort exactly when the request is larger
                    than what remains (error region {gt}), and that test dominates every slice index.
@@ -27,9 +28,9 @@ import json
 import os
 import re
 
-from fvlib.core import (CFG, CallGraph, agg_blocks, assignments, calls, callee_matches, callee_name, controlling_guard,
+from fvlib.core import (CFG, CallGraph, agg_blocks, assignments, calls, callee_matches, callee_name, parent_fn, site_guard,
                         describe, guards, guard_region, short)
-from fvlib import codec
+from fvlib import codec, tables
 
 TABLE = os.path.join(os.path.dirname(os.path.dirname(os.path.abspath(__file__))), "tables", "C02_panic_sites.json")
 PAN = (r"(::unwrap$|::expect$|panicking::|::unwrap_err$|::expect_err$|ops::index::Index(Mut)?(<.*>)?>?::index(_mut)?$|"
@@ -135,23 +136,15 @@ def run(F, rep, tier, allfacts):
             if op is None:
                 continue
             cfg = cfg or CFG(f)
-            g = controlling_guard(f, cfg, i)
-            g.pop("bb", None)
-            key = "%s @ %s" % (op, short(n))
-            sites.setdefault(key, []).append((g, "%s:%s" % (f["file"], t[5] if t[0] == "call" else f["line"])))
+            key = "%s @ %s" % (op, short(parent_fn(n)))
+            for g in site_guard(F, n, f, cfg, i):
+                sites.setdefault(key, []).append((g, "%s:%s" % (f["file"], t[5] if t[0] == "call" else f["line"])))
     rep.note("WHO-panic: %d constant-condition asserts discharged automatically" % nconst)
     if os.environ.get("FV_WRITE_TABLES") == "1":
         json.dump({k: {"guards": [g for g, _ in v], "why_cannot_fire": ""} for k, v in sorted(sites.items())}, open(TABLE + ".new", "w"), indent=1, sort_keys=True)
     table = json.load(open(TABLE))
     rep.floor("WHO-panic", "non-constant panic-capable sites", len(sites), 10)
-    for key, lst in sorted(sites.items()):
-        row = table.get(key)
-        if row is None:
-            rep.bad("WHO-panic", "UNREVIEWED:" + key, lst[0][1], "new panic-capable operation reachable from decoding: %s (guards %s); a decoder must fail with an error, not panic" % (key, [g for g, _ in lst]))
-            continue
-        got = sorted(json.dumps(g, sort_keys=True) for g, _ in lst)
-        want = sorted(json.dumps(g, sort_keys=True) for g in row["guards"])
-        rep.check(got == want, "WHO-panic", "guard:" + key, lst[0][1], "the condition protecting %s changed: now %s, reviewed %s (%s)" % (key, got, want, row.get("why_cannot_fire", "")))
+    tables.compare(rep, "WHO-panic", table, sites, missing_is_violation=False, new_is_violation=True, what="panic-capable operation reachable from decoding", reason_key="why_cannot_fire")
 
     # ---------------- reader
     for m, rx in (("peek", r"call:len\(arg:into\)"), ("read", r"call:len\(arg:into\)"), ("skip", r"arg:n")):
